@@ -150,7 +150,7 @@ func Diff(got, want []Stmt) string {
 }
 
 // Semantic is the projection used by C07: what a spokfile *does*. Comments and docstrings
-// are left out; command texts are compared up to trailing blanks / CR (no effect on the shell).
+// are left out; command texts are compared verbatim.
 func Semantic(in []Stmt) []Stmt {
 	out := make([]Stmt, 0, len(in))
 	for _, s := range in {
@@ -159,11 +159,9 @@ func Semantic(in []Stmt) []Stmt {
 			continue
 		case "task":
 			s.Doc, s.HasDoc = "", false
-			cmds := make([]string, len(s.Cmds))
-			for i, c := range s.Cmds {
-				cmds[i] = strings.TrimRight(c, " \t\r")
-			}
-			s.Cmds = cmds
+			// command lines are compared verbatim: even a trailing blank can matter to the shell
+			// (an escaped space at the end of a line)
+			s.Cmds = append([]string(nil), s.Cmds...)
 		}
 		out = append(out, s)
 	}
